@@ -166,6 +166,10 @@ def elem_programs(tier, seed):
             for cmpop in ("==", "!=") + (() if ty == "range" else ("<", "<=", ">", ">=")):
                 add("t(lambda: x %s %s)" % (cmpop, other), op="cmp", cmp=cmpop, other="shorter")
                 add("t(lambda: x %s %s)" % (cmpop, mk(ty, n)), op="cmp", cmp=cmpop, other="equal")
+            if ty == "range":
+                # equality of ranges is equality of the sequences they denote
+                add("t(lambda: [(a, b, c, d, e, f) for a in (0, 1) for b in (0, 1, 2, 4) for c in (1, 2, 3, -1) for d in (0, 1) for e in (0, 1, 2, 4) for f in (1, 2, 3, -1) if (range(a, b, c) == range(d, e, f)) != (list(range(a, b, c)) == list(range(d, e, f)))])", op="range-equality")
+                add("t(lambda: (x == range(3, %d, 2), x != range(3, %d, 2), x == range(3, %d, 2), x == range(3, %d, 4), range(0) == range(5, 5), range(0, 3, 5) == range(0, 1, 9)))" % (3 + 2 * n, 3 + 2 * n, 4 + 2 * n, 3 + 2 * n), op="range-equality")
             add("t(lambda: %s(x))" % ("list" if ty == "range" else "repr"), op="intact-after-all")
             if ty == "list":
                 for a, b, c in (triples if tier == "thorough" else rnd.sample(triples, 120)):
@@ -185,6 +189,15 @@ def elem_programs(tier, seed):
                 lines.append("def f():\n    y = list(x)\n    rs = [y[:], y + [], [] + y, y * 1, 1 * y, list(y), y[::1], y[0:], y[:len(y)]]\n    for r in rs:\n        if len(r) > 0:\n            r[0] = 55\n            r[len(r) - 1] = 66\n            del r[0]\n    for r in rs:\n        r.append(1)\n    return y")
                 add("t(f)", op="noalias")
                 add("t(lambda: repr(x))", op="intact-after-all")
+            if ty in ("tuple", "str", "bytes"):
+                # immutable sequences: a value derived from x (slice, sum, product) that is then extended in place
+                # (+=, *=) must leave x and every other derived value untouched (shared backing arrays)
+                ext = {"tuple": "(70, 80)", "str": "'yz'", "bytes": "b'yz'"}[ty]
+                for cut in (sorted(set([0, 1, 2, max(n - 1, 0), n])) if ty != "bytes" else []):
+                    lines.append("def f():\n    s = x[:%d]\n    s += %s\n    r = x[:%d]\n    r += %s\n    r += %s\n    q = x[:%d]\n    q *= 2\n    return (s, r, q, x)" % (cut, ext, cut, ext, ext, cut))
+                    add("t(f)", op="noalias", cut=cut)
+                lines.append("def f():\n    a = x + %s\n    b = a\n    b += %s\n    c = a\n    c += %s\n    return (a, b, c, x)" % (ext, ext, ext))
+                add("t(f)", op="noalias", cut=-1)
             # one program per <= 1500 observations (each well inside the harness watchdog), each closed by an
             # intact-after-all observation of the operand
             CH = 1500
